@@ -15,7 +15,7 @@ MANIFEST = dict(
               "replay into the implementation through gated disposable doubles",
     design="5/C08")
 INVS = ["TypeOK", "Restored", "BodyExcIdentity", "EnterOnce", "ExitOnce", "ExitArg", "EnterFailureNoBody",
-        "SurfaceCleanup", "CancelNotLost", "CancelAbortsMembers", "NoWaitAfterFailure"]
+        "SurfaceCleanup", "CancelNotLost", "CancelAbortsMembers", "NoWaitAfterFailure", "DisposableStateVisible"]
 ALL = ["ok", "fail", "susp"]
 
 
@@ -33,13 +33,15 @@ def run(rep, work, tier, seed):
         small = dict(ND=2, NC=0, Behaviours=ALL)
         leg_mutant(rep, work, SPEC, "mutant_single_cleanup_error_vanishes",
                    cfg_text(dict(small, Bug="single_cleanup_error_vanishes"), invariants=INVS), ["SurfaceCleanup"])
+        leg_mutant(rep, work, SPEC, "mutant_completion_order_state",
+                   cfg_text(dict(small, Bug="completion_order_state"), invariants=INVS), ["DisposableStateVisible"])
         leg_mutant(rep, work, SPEC, "mutant_no_rollback", cfg_text(dict(small, Bug="no_rollback"), invariants=INVS),
                    ["ExitOnce"])
     for name, conf in confs:
         leg_r(rep, work, SPEC, f"conf_{name}_{tier}", cfg_text(conf, invariants=INVS), ScopeLifeDriver)
     rep.assumptions += [
-        "disposable doubles: the first yields one state (visible inside the body), the others none; return shapes "
-        "alternate between a single State, a list and None",
+        "disposable doubles: disposable i yields the state B = i (the body must see the one declared last, whatever the "
+        "order in which they finished entering); return shapes alternate between a single State and a list",
         "errors raised by the exits run during the rollback of a failed enter are ignored by the library (the enter "
         "error is what surfaces) - modelled so",
     ]
